@@ -56,7 +56,7 @@ class C01(Profile):
     claims = {k: "C01" for k in ("rows_mismatch", "keys_mismatch", "columns_mismatch", "no_recovery")}
     eval_new = True
     recover_kinds = ("run",)
-    fault_sites = ("leaf_iter", "udf", "udf_stop")
+    fault_sites = ("leaf_iter", "udf", "udf_stop", "udf_type")
     dn_rule = ("scenario = seeded iteration-engine op sequence over instrumented leaves; distinct = normalised "
                "library tree shape (operation/node types) of an evaluated entry; non-trivial = at least one of "
                "{merge/elision, max_rows==0 shortcut, join-identity shortcut, cursor interleaving} fired in that run")
@@ -94,16 +94,30 @@ class C02(Profile):
     claims = {k: "C02" for k in ("rows_mismatch", "keys_mismatch", "columns_mismatch")}
     eval_new = True
     both_orders = True
+
+    def claim(self, kind, entry, run, v):
+        from . import model as M
+
+        if entry is not None and not M.is_sql(entry.mv.engine):
+            return None          # (results of the iteration engine are C01 / C07 matters)
+        return self.claims.get(kind)
     dn_rule = ("scenario = seeded SQL-engine op sequence over SQLite tables, every new relation compiled and run under "
                "both physical scan orders; distinct = normalised library tree shape; non-trivial = shape contains "
                ">= 2 Select levels or a join or a chain")
 
     def gen(self, rng, tier):
         big = tier == "thorough"
+        if rng.random() < 0.2:
+            # SQL relations built on payload-carrying markers: sources uploaded from an iteration engine, processed
+            # trees that later relations keep sharing (what is compiled then includes cached payloads)
+            w = {**UNARY_W, "chain": 1.5, "join": 2, "leaf": 1.5, "xfer": 3, "mat": 1.5, "process": 2, "run": 1.5,
+                 "redeclared_twin": 0.5}
+            return multi_gen(rng, tier, weights=w, flags_p=0.0, engines=["sql", "it"], udf_p=0.05, redeclare_p=0.1,
+                             pref_engines=["sql"])
         g = Gen(
             rng, engines=["sql"],
-            weights={**UNARY_W, "chain": 2, "join": 3, "leaf": 1.5, "ephemeral": 0.8},
-            max_ops=14 if big else 9, nleaves=(2, 4), hidden_p=0.3, udf_p=0.05,
+            weights={**UNARY_W, "chain": 2, "join": 3, "leaf": 1.5, "ephemeral": 0.8, "redeclared_twin": 0.4},
+            max_ops=14 if big else 9, nleaves=(2, 4), hidden_p=0.3, udf_p=0.05, redeclare_p=0.08, max_rows=7,
             bounds=("exact", "loose", "zeromin", "unbounded"), special_leaf_p=0.05, adjacent_p=0.3, pipeline_p=0.4,
         )
         return {"config": swarm_config(rng), "ops": g.build()}
@@ -269,7 +283,7 @@ class C05(Profile):
         eng = rng.choice(["it", "sql"])
         g = Gen(rng, engines=[eng],
                 weights={"calc": 2, "proj": 3, "sel": 3, "dedup": 1, "sort": 3, "slice": 4, "chain": 0.5, "leaf": 0.5,
-                         "custom": 2 if eng == "it" else 0, "guarded": 1.5 if eng == "it" else 0},
+                         "custom": 2 if eng == "it" else 0, "guarded": 1.5 if eng == "it" else 0, "ephemeral": 1.0},
                 max_ops=14 if big else 9, nleaves=(1, 2), adjacent_p=0.6, total_sort_p=0.3, pipeline_p=0.3, stride_order_only=True,
                 udf_p=0.04)
         return {"config": swarm_config(rng), "ops": g.build()}
@@ -303,7 +317,7 @@ class C06(Profile):
         mode = rng.choice(["sql", "it", "multi"])
         engines = {"sql": ["sql"], "it": ["it", "it2"] if rng.random() < 0.4 else ["it"], "multi": ["sql", "it"]}[mode]
         w = {**UNARY_W, "chain": 2.5, "chain_empty": 1, "join": 2.5 if mode != "it" else 0, "leaf": 2, "mat": 0.5,
-             "custom": 1 if mode != "sql" else 0, "mark": 0.7}
+             "custom": 1 if mode != "sql" else 0, "mark": 0.7, "iterate": 1.5 if mode == "it" else 0}
         if len(engines) > 1:
             w["xfer"] = 2
             w["process"] = 0.6
@@ -323,7 +337,7 @@ class C06(Profile):
         return out
 
 
-PROC_SITES = ("hook_before", "hook_after", "db_before", "db_mid", "db_after", "leaf_iter", "stream_row", "udf", "udf_stop")
+PROC_SITES = ("hook_before", "hook_after", "db_before", "db_mid", "db_after", "leaf_iter", "stream_row", "udf", "udf_stop", "udf_type")
 
 
 class C07(Profile):
@@ -332,7 +346,7 @@ class C07(Profile):
     level = "fault_enumeration"
     claims = {k: "C07" for k in ("rows_mismatch", "mutated", "transfer_payload_on_input", "process_changed_signature",
                                  "process_incomplete", "hook_bad_arg", "hook_on_trivial", "hook_recall", "bad_payload",
-                                 "exec_exception", "payload_not_cached")}
+                                 "exec_exception", "payload_not_cached", "iteration_not_repeatable")}
     fault_sites = PROC_SITES
     enumerate_faults = True
     track_payloads = True
@@ -346,13 +360,13 @@ class C07(Profile):
         if kind == "exec_exception" and v["detail"].get("phase") != "process" and \
                 not (entry is not None and entry.op["k"] == "process"):
             return None      # (an exception while executing the tree process() returned is a C07 matter too)
-        if kind == "rows_mismatch" and (entry is None or entry.op["k"] != "process"):
+        if kind in ("rows_mismatch", "iteration_not_repeatable") and (entry is None or entry.op["k"] != "process"):
             return None
         return self.claims.get(kind)
 
     def gen(self, rng, tier):
         w = {**UNARY_W, "xfer": 5, "mat": 3, "chain": 1.5, "chain_empty": 1.2, "roundtrip_empty": 0.5, "roundtrip_mat": 0.3, "join": 0.6, "leaf": 1.5, "process": 5, "run": 1,
-             "mark": 1.2, "flag_on_processed": 0.8, "custom": 0.6, "marker_tower": 1.0, "redeclared_twin": 0.6}
+             "mark": 1.2, "flag_on_processed": 0.8, "custom": 0.6, "marker_tower": 1.0, "redeclared_twin": 0.6, "iterate": 0.7}
         return multi_gen(rng, tier, weights=w, flags_p=0.15, special_leaf_p=0.12, udf_p=0.06,
                          bounds=("exact", "loose", "zeromin", "unbounded"), redeclare_p=0.12)
 
@@ -465,7 +479,7 @@ class C10(Profile):
 
     def gen(self, rng, tier):
         w = {"calc": 2, "proj": 2, "sel": 2, "dedup": 1, "sort": 1.5, "slice": 1.5, "xfer": 3, "mat": 5, "chain": 2,
-             "chain_empty": 1.2, "roundtrip_empty": 0.4, "roundtrip_mat": 0.5, "reuse_mat": 0.8, "flag_on_processed": 0.4, "marker_tower": 0.6, "redeclared_twin": 0.5, "mark": 1.5, "leaf": 1, "process": 5, "run": 4, "attach": 4, "iterate": 2, "cursor_open": 0.5, "pull": 1}
+             "chain_empty": 1.2, "roundtrip_empty": 0.4, "roundtrip_mat": 0.5, "reuse_mat": 0.8, "flag_on_processed": 0.4, "marker_tower": 0.6, "redeclared_twin": 0.5, "rawtree": 0.8, "custom": 1.0, "mark": 1.5, "leaf": 1, "process": 5, "run": 4, "attach": 4, "iterate": 2, "cursor_open": 0.5, "pull": 1}
         return multi_gen(rng, tier, weights=w, flags_p=0.1, engines=rng.choice([["it"], ["sql", "it"], ["sql", "it", "it2"]]),
                          max_ops=18 if tier == "thorough" else 12, udf_p=0.1, redeclare_p=0.1)
 
@@ -503,7 +517,7 @@ class C11(Profile):
                 weights={"calc": 1.5, "proj": 3, "sel": 1.5, "dedup": 2.5, "sort": 5, "slice": 5, "chain": 1.5, "join": 1.5,
                          "mat": 1.2, "leaf": 1},
                 max_ops=13 if big else 9, nleaves=(1, 3), total_sort_p=0.7, allow_pending_binary=0.5, adjacent_p=0.25,
-                pipeline_p=0.4)
+                pipeline_p=0.4, hidden_p=0.3, max_rows=7)
         return {"config": swarm_config(rng), "ops": g.build()}
 
     def dn_keys(self, run):
@@ -567,7 +581,7 @@ class C15(Profile):
         return self.claims.get(kind)
 
     def gen(self, rng, tier):
-        w = {**UNARY_W, "xfer": 7, "mat": 4, "chain": 1, "join": 1, "leaf": 1, "process": 2, "conform_inner": 1.5, "roundtrip_mat": 0.5, "mark": 1.5, "marker_tower": 0.6, "twin": 1.0}
+        w = {**UNARY_W, "xfer": 7, "mat": 4, "chain": 1, "join": 1, "leaf": 1, "process": 2, "conform_inner": 1.5, "roundtrip_mat": 0.5, "mark": 1.5, "marker_tower": 0.6, "twin": 1.0, "flag_on_processed": 0.6}
         return multi_gen(rng, tier, weights=w, flags_p=0.55,
                          engines=["sql", "it", "it2"] if rng.random() < 0.6 else ["sql", "it"])
 
@@ -596,7 +610,10 @@ class C16(Profile):
         if mode == "multi":
             w["xfer"] = 2
             w["mat"] = 0.7
+            w["process"] = 1
+            w["flag_on_processed"] = 0.8
         g = Gen(rng, engines=engines, weights=w, max_ops=14 if big else 10, nleaves=(2, 3), special_leaf_p=0.3,
+                flags_p=0.1 if mode == "multi" else 0.0,
                 bounds=("exact", "loose", "zeromin", "unbounded"), redeclare_p=0.25)
         return {"config": swarm_config(rng), "ops": g.build()}
 
@@ -641,7 +658,7 @@ class C17(Profile):
             return multi_gen(rng, tier, weights=w, flags_p=0.3, engines=["sql", "it"])
         g = Gen(rng, engines=["sql"], weights={**UNARY_W, "chain": 3.5, "join": 2, "leaf": 1, "rawtree": 3, "conform_inner": 1, "ephemeral": 1.0,
                                                "mat": 0.7, "process": 0.7},
-                max_ops=14 if big else 10, nleaves=(1, 3), adjacent_p=0.35, pipeline_p=0.4)
+                max_ops=14 if big else 10, nleaves=(1, 3), adjacent_p=0.35, pipeline_p=0.4, hidden_p=0.25, max_rows=7)
         return {"config": swarm_config(rng), "ops": g.build()}
 
     def dn_keys(self, run):
@@ -655,7 +672,7 @@ class C18(Profile):
     claims = {k: "C18" for k in ("eager_leaf_iteration", "multiple_starts", "iteration_not_repeatable", "rows_mismatch",
                                  "no_recovery", "payload_not_cached", "mutated")}
     track_payloads = True
-    fault_sites = ("leaf_iter", "udf", "udf_stop")
+    fault_sites = ("leaf_iter", "udf", "udf_stop", "udf_type")
     enumerate_faults = True
     recover_kinds = ("iterate",)
     dn_rule = ("iteration-engine trees over instrumented lazy leaves (a leaf may occur several times): lazy-only trees and trees "
